@@ -501,7 +501,7 @@ func (x *Exec) call(a *activation, b *ssa.BasicBlock, i int, in *ssa.Call, fr *f
 	if cc.IsInvoke() {
 		// the receiver was boxed from a library type: the call goes to that type's method
 		if recv := x.val(fr, cc.Value); recv.k == 'I' && recv.dyn != nil {
-			if m := x.c.Prog.LookupMethod(recv.dyn, cc.Method.Pkg(), cc.Method.Name()); m != nil && m.Blocks != nil && (m.Pkg == x.c.SLib || m.Pkg == x.c.SCLI) {
+			if m := x.c.Prog.LookupMethod(recv.dyn, cc.Method.Pkg(), cc.Method.Name()); m != nil && m.Blocks != nil && (m.Pkg == x.c.SLib || m.Pkg == x.c.SCLI || (m.Pkg == nil && m.Synthetic != "" && strings.Contains(m.Synthetic, "wrapper"))) {
 				invoked = m
 				var rv AV
 				if _, isPtr := recv.dyn.Underlying().(*types.Pointer); isPtr {
